@@ -51,7 +51,7 @@ import shutil
 
 from vlib import worlds as W
 
-STRUCTS = ["K1", "K2", "K4", "P1", "Q1", "N1", "N2", "N3", "X1", "X2", "M1", "A1", "G1", "S1", "V1", "W1", "V2", "H1", "H2", "Y0", "Y1", "I1", "I2", "F1", "F2", "Z1", "Z2", "S2", "J1", "NC", "MA", "H3", "W2", "LQ", "D1", "B9", "C3", "E1", "X3", "IP", "K5"]
+STRUCTS = ["K1", "K2", "K4", "P1", "Q1", "N1", "N2", "N3", "X1", "X2", "M1", "A1", "G1", "S1", "V1", "W1", "V2", "H1", "H2", "Y0", "Y1", "I1", "I2", "F1", "F2", "Z1", "Z2", "S2", "J1", "NC", "MA", "H3", "W2", "LQ", "D1", "B9", "C3", "E1", "X3", "IP", "K5", "PH"]
 NC_EXONS = [[6501, 6650], [6801, 6950], [7101, 7300]]
 # three unannotated loci inside gene G5 (+): two on '+' (in introns 1 and 3), one antisense spanning both (canonical for '-')
 J_PLUS_A = [[9321, 9420], [9521, 9620], [9681, 9780]]
@@ -66,7 +66,7 @@ G5_EXONS = [[9001, 9300], [9801, 10000], [10601, 10800], [11401, 11700], [12501,
 LEVELS = (1, 3, 12)
 # structures by the locus they live in (structures of different loci do not interact except through id numbering)
 LOCUS = {"G1": ["K1", "K2", "P1", "Q1", "N1", "N2", "N3", "X1", "X2", "A1", "S1", "V1", "I1", "I2", "D1", "X3", "K5"], "G2": ["K4"], "U1": ["M1"], "U2": ["G1"],
-         "G5": ["W1", "V2", "J1", "W2"], "G6": ["H1", "H2", "F1", "F2", "H3"], "G11": ["Y0", "Y1"], "ZA": ["Z1"], "ZB": ["Z2"], "U3": ["S2"], "U4": ["NC"], "U5": ["MA"], "U6": ["LQ"], "U7": ["B9"], "U8": ["C3", "IP"], "G8": ["E1"]}
+         "G5": ["W1", "V2", "J1", "W2"], "G6": ["H1", "H2", "F1", "F2", "H3"], "G11": ["Y0", "Y1"], "ZA": ["Z1"], "ZB": ["Z2"], "U3": ["S2"], "U4": ["NC"], "U5": ["MA"], "U6": ["LQ"], "U7": ["B9"], "U8": ["C3", "IP"], "G8": ["E1", "PH"]}
 LOCUS_OF = {st: loc for loc, sts in LOCUS.items() for st in sts}
 
 
@@ -184,6 +184,10 @@ def structure_reads(struct, level, tag):
                 reads.append(W.read_of(nm, "chr2", [[5001, 5200], [5401, 5401], [5601, 5800], [6001, 6001]]))
             else:
                 reads.append(W.read_of(nm, "chr2", [[5001, 5200], [5401, 5401], [6201, 6400]]))
+        elif struct == "PH":
+            # a novel isoform in G8 whose first intron ends 4 bp before the annotated intron 5201-5600 of T10 (an alternative acceptor,
+            # canonical itself) and whose last exon is unannotated; no read carries the annotated intron
+            reads.append(W.read_of(nm, "chr2", [[5001, 5200], [5597, 5800], [6401, 6600]]))
         elif struct == "IP":
             if k % 2 == 0:
                 reads.append(W.read_of(nm, "chr3", [[1201, 1400], [1601, 1800], [2101, 2900]]))
@@ -263,6 +267,7 @@ def make_world(scenario, annotated=True):
     W.add_sites_for_blocks(w, "chr3", [[1001, 1200], [1501, 1700], [2001, 2300]], "+")
     W.add_sites_for_blocks(w, "chr1", [[slot(0)[0], slot(0)[1] + 10], [slot(1)[0] + 10, slot(1)[1]]], "+")
     W.add_sites_for_blocks(w, "chr2", [[5401, 5401], [6201, 6400]], "+")
+    W.add_sites_for_blocks(w, "chr2", [[5001, 5200], [5597, 5800], [6401, 6600]], "+")
     W.add_sites_for_blocks(w, "chr3", [[1201, 1400], [1601, 1800], [2101, 2900]], "+")
     W.add_sites_for_blocks(w, "chr2", [[Z_EXONS[0][0], Z_EXONS[0][1] + 4], Z_EXONS[1], Z_EXONS[2]], "+")
     W.dedup_sites(w)
